@@ -433,6 +433,11 @@ where
                                 Ok(strm) => strm,
                                 Err(e) => return Err(e),
                             };
+                            // The finished page will not see a finish() call: release its ID here.
+                            let page_id = stream.ldap.last_id;
+                            if let Err(e) = stream.ldap.id_scrub_tx.send(page_id) {
+                                warn!("error sending scrub message for page ID {}: {}", page_id, e);
+                            }
                             // Again, we're replacing the innards of the original stream with
                             // the contents of the new one.
                             stream.ldap = new_stream.ldap;
